@@ -87,7 +87,8 @@ def h_cascade(ctx, prop, kinds, sheet_order, level, via_use=False, reify=True):
     if level == 1 and "star" in kinds:
         # '*' also selects the shape itself: its own (specificity 0) declaration beats anything inherited from the group
         want = [v for (o, sel, p_, v, spec) in rules if sel == "*"][-1]
-    style = "".join("%s { %s: %s }\n" % (sel, p, v) for (o, sel, p, v, spec) in rules)
+    # every rule sits between two block comments (comments are ignored, the rules between them are not)
+    style = "".join("/* rule %d: %s */\n%s { %s: %s }\n" % (i, p, sel, p, v) for i, (o, sel, p, v, spec) in enumerate(rules)) + "/* end */"
     paint = {lvl: {"id": ids[lvl], "class": classes[lvl]} for lvl in (0, 1, 2)}
     paint[level].update(attrs)
     # make the stroke visible for width checks
@@ -106,7 +107,7 @@ def h_cascade(ctx, prop, kinds, sheet_order, level, via_use=False, reify=True):
     doc = D.Doc(ctx, spec, ppi)
     text = doc.text
     if style:
-        text = text.replace(">", "><style>/* sheet */\n%s</style>" % style, 1)
+        text = text.replace(">", "><style>%s</style>" % style, 1)
     svg = S.SVG.parse(io.StringIO(text), reify=reify)
     shapes = D.lib_shapes(S, svg)
     ok = len(shapes) == 1
